@@ -45,7 +45,8 @@ Advance(guardFails) ==
   /\ verdict' = verdict \cup guardFails \cup InvFails'
 
 NoExpect == [files |-> FALSE, mayChange |-> <<>>, mustChange |-> <<>>,
-             sites |-> FALSE, siteMay |-> <<>>, siteMust |-> <<>>, exit |-> -1]
+             sites |-> FALSE, siteMay |-> <<>>, siteMust |-> <<>>, exit |-> -1,
+             sel |-> FALSE, queues |-> <<>>]
 
 TraceInit ==
   /\ tid \in 1..Len(Traces) /\ l = 1 /\ verdict = {} /\ expect = NoExpect /\ changed = {} /\ sites = <<>>
@@ -68,6 +69,7 @@ TrSelected ==
   /\ Select_do(Ev.ids)
   /\ UNCHANGED <<expect, changed, sites>>
   /\ Advance(Fails(<< <<pc = "args", "Selected:phase">>,
+                      <<expect.sel => \E i \in 1..Len(expect.queues) : expect.queues[i] = Ev.ids, "Selected:differs-from-reference-selection">>,
                       <<\A i, j \in 1..Len(Ev.ids) : Ev.ids[i] = Ev.ids[j] => i = j, "Selected:codemod-listed-twice">> >>))
 
 TrCodemodStart ==
